@@ -168,6 +168,18 @@ func (p *flowProto) genHist(r *rand.Rand, n int, w *bufio.Writer) {
 					recs = rs
 				}
 				exp = "msg " + hdrTxt + " errs= recs=" + recs
+			case have && k < 7: // one message: data for the current definition, a redefinition, data for the new definition
+				ds1, rs1 := p.dataSetBytes(r, known, 1+r.Intn(2))
+				t := p.histTpl(r, id)
+				if r.Intn(2) == 0 {
+					t = p.relength(r, known)
+				}
+				ref[refKey{string(addr), id}] = t
+				ds2, rs2 := p.dataSetBytes(r, t, 1+r.Intn(2))
+				msg = append(msg, ds1...)
+				msg = append(msg, p.tplSetBytes(t)...)
+				msg = append(msg, ds2...)
+				exp = "msg " + hdrTxt + " errs= recs=" + rs1 + rs2
 			case have: // data for the latest announced definition
 				ds, rs := p.dataSetBytes(r, known, 1+r.Intn(3))
 				msg = append(msg, ds...)
